@@ -110,6 +110,29 @@ def brute_depths(wv):
     return depth
 
 
+def fast_depths(wv):
+    """the same peeling for populations of a thousand and more individuals: the dominance matrix is computed with
+    numpy on the exact values (integers below 2**53 as float64 compare exactly), then peeled front by front"""
+    import numpy
+    a = numpy.array([[float(x) for x in t] for t in wv], dtype=float)
+    assert all(Fr(float(x)) == x for t in wv for x in t)
+    ge = (a[:, None, :] >= a[None, :, :]).all(axis=2)
+    gt = (a[:, None, :] > a[None, :, :]).any(axis=2)
+    dommat = ge & gt                      # dommat[j, i]: j dominates i
+    n = len(wv)
+    depth = numpy.full(n, -1)
+    alive = numpy.ones(n, dtype=bool)
+    d = 0
+    while alive.any():
+        dominated = (dommat & alive[:, None]).any(axis=0)
+        front = alive & ~dominated
+        assert front.any()
+        depth[front] = d
+        alive &= ~front
+        d += 1
+    return [int(x) for x in depth]
+
+
 def canon(fronts, index_of):
     """fronts (list of lists of objects) -> list of sorted input indices; None on a foreign object"""
     out = []
@@ -193,7 +216,7 @@ def evaluate(d):
     ks, ffos = d["ks"], d["ffos"]
     ktok = ",".join(map(str, ks))
     ftok = ",".join("1" if f else "0" for f in ffos)
-    depth = brute_depths(wv) if n else []
+    depth = (fast_depths(wv) if d.get("light") else brute_depths(wv)) if n else []
     lines, expect, orc = [], [], None
     answers = {}
     procs = [p for p in d["procs"] if not (p == "log" and (m < 2 or n == 0))]
@@ -228,10 +251,13 @@ def evaluate(d):
                 outs.append("foreign" if ids is None else show(ids))
                 if orc is None and n > 0:
                     orc = check_result(name, ids, raw, k, ffo, depth, n, wv)
-        lines.append("C04 run %s %s %s %s" % (proc, ptok, ktok, ftok))
+        # `light` (>1000 individuals): the model of the quadratic procedure needs minutes there, the model of the
+        # divide-and-conquer one a second; C04.sortLog_eq_sortStd proves them equal, so both implementations are
+        # compared with the latter
+        lines.append("C04 run %s %s %s %s" % ("log" if d.get("light") else proc, ptok, ktok, ftok))
         expect.append("|".join(outs))
         # certificate on the complete ranking
-        if n > 0:
+        if n > 0 and not d.get("light"):
             full = canon(fn(pop, n, False), index_of)
             if full is not None:
                 lines.append("C04 cert %s %s" % (ptok, show(full)))
@@ -244,7 +270,7 @@ def evaluate(d):
                         k, ffo, show(answers[("std", k, ffo)]), show(answers[("log", k, ffo)]))
                     break
     # the peeling spec of the Lean side must give what the implementation gave
-    if procs and n > 0:
+    if procs and n > 0 and not d.get("light"):
         lines.append("C04 run spec %s %s %s" % (ptok, ktok, ftok))
         expect.append(expect[0])
     return Case(d, lines, expect, orc, tag=d.get("tag", "?"), nontrivial=(n >= 2))
@@ -422,6 +448,21 @@ def large_cases(tier, rng, mult):
         yield case(w, pop, ks, "large/n=%d/m=%d" % (n, m), ffos=(0,))
 
 
+def block_cases(tier, rng, mult):
+    """populations of MORE THAN A THOUSAND distinct fitnesses asked for the first front only (and for a few leading
+    fronts): size-dependent short cuts (block-wise filtering, chunked vectorisation — seeded change C04-r7m2 filters
+    blocks of 1024 and never re-tests earlier survivors) are invisible below their block size.  `light`: only the
+    requested fronts are compared with the model, no certificate of the complete ranking (that is the other streams' job)."""
+    count = (4 if tier == "thorough" else 1) * mult
+    for it in range(count):
+        n = rng.choice([1100, 1300, 1600]) if tier != "thorough" else rng.choice([1100, 1700, 2300, 2600])
+        m = 2 if it % 2 == 0 else 3
+        res = 1 << 20
+        pop = [[rng.randrange(res) for _ in range(m)] for _ in range(n)]
+        w = [rng.choice(["1", "-1"]) for _ in range(m)]
+        yield dict(case(w, pop, [n], "blocks/n=%d/m=%d" % (n, m), ffos=(1,)), light=1)
+
+
 XVALS = ["1.4e308", "1.5e308", "1.6e308", "1.7e308", "1.7976931348623157e308", "-1.4e308", "-1.5e308", "-1.7e308",
          "-1.7976931348623157e308", "inf", "-inf", "0.0", "1.0", "-1.0", "5e-324", "1e-323", "1.5e-323", "-5e-324",
          "2.2250738585072014e-308", "8.9e307", "9e307"]
@@ -456,6 +497,8 @@ def extreme_cases(tier, rng, mult):
 def generate(tier, rng, mult):
     # F37 stream first: it carries the clause "both procedures return the ranking" at extreme magnitudes
     for c in extreme_cases(tier, rng, mult):
+        yield c
+    for c in block_cases(tier, rng, mult):
         yield c
     # interleave so that a time-limited run sees all parts
     ex = exhaustive(tier, rng, mult)
